@@ -266,8 +266,12 @@ class PreemptibleResource(Entity):
         for grant in candidates:
             if self._available >= needed:
                 break
+            if grant.released:
+                # released meanwhile by an earlier victim's on_preempt callback
+                continue
             grant._do_preempt()
-            self._active_grants.remove(grant)
+            # the callback may have released other grants, which rebuilds the list
+            self._active_grants = [g for g in self._active_grants if g is not grant]
             self._available += grant.amount
             self._preemptions += 1
             freed += grant.amount
